@@ -57,6 +57,8 @@ var Palette = []ResInfo{
 	{"verif.example", "v1", "gadgets", "Gadget", true, false},
 	// the same kind and plural served by a second API group (a resource that moves between groups keeps kind and name)
 	{"legacy.example", "v1", "widgets", "Widget", true, false},
+	// the same kind served at a second version of its group (objects are shared between the versions, as on a real server)
+	{"verif.example", "v1beta1", "widgets", "Widget", true, false},
 }
 
 func resByKind(kind string) (ResInfo, bool) {
@@ -66,6 +68,28 @@ func resByKind(kind string) (ResInfo, bool) {
 		}
 	}
 	return ResInfo{}, false
+}
+
+func resByGVR(group, version, resource string) (ResInfo, bool) {
+	for _, r := range Palette {
+		if r.Group == group && r.Version == version && r.Resource == resource {
+			return r, true
+		}
+	}
+	return ResInfo{}, false
+}
+
+// asVersion returns the object as the requested version of its group serves it.
+func asVersion(m map[string]interface{}, res ResInfo) map[string]interface{} {
+	if str(m["apiVersion"]) == res.APIVersion() {
+		return m
+	}
+	c := make(map[string]interface{}, len(m))
+	for k, v := range m {
+		c[k] = v
+	}
+	c["apiVersion"] = res.APIVersion()
+	return c
 }
 
 func resByGR(group, resource string) (ResInfo, bool) {
@@ -213,8 +237,8 @@ func parsePath(p string) parsedPath {
 		pp.namespace = rest[1]
 		rest = rest[2:]
 	}
-	r, ok := resByGR(group, rest[0])
-	if !ok || r.Version != version {
+	r, ok := resByGVR(group, version, rest[0])
+	if !ok {
 		return parsedPath{}
 	}
 	pp.res = r
@@ -300,7 +324,7 @@ func (s *APIServer) Handle(method, path string, query url.Values, contentType st
 		if o == nil {
 			return notFound(res, pp.name)
 		}
-		return jsonResp(200, o.M)
+		return jsonResp(200, asVersion(o.M, res))
 	case "POST":
 		var m map[string]interface{}
 		if err := json.Unmarshal(body, &m); err != nil {
@@ -354,7 +378,7 @@ func (s *APIServer) Handle(method, path string, query url.Values, contentType st
 		}
 		m["metadata"] = md
 		s.finishUpdate(old, m)
-		return jsonResp(200, m)
+		return jsonResp(200, asVersion(m, res))
 	case "PATCH":
 		id := ObjID{res.Group, res.Kind, ns, pp.name}
 		old := s.objs[id.String()]
@@ -399,7 +423,7 @@ func (s *APIServer) Handle(method, path string, query url.Values, contentType st
 		}
 		m["metadata"] = md
 		s.finishUpdate(old, m)
-		return jsonResp(200, m)
+		return jsonResp(200, asVersion(m, res))
 	case "DELETE":
 		id := ObjID{res.Group, res.Kind, ns, pp.name}
 		old := s.objs[id.String()]
@@ -481,7 +505,7 @@ func (s *APIServer) list(res ResInfo, ns string, query url.Values) Response {
 		if !fsel.Matches(fields.Set{"metadata.name": o.ID.Name, "metadata.namespace": o.ID.Namespace}) {
 			continue
 		}
-		items = append(items, o.M)
+		items = append(items, asVersion(o.M, res))
 	}
 	out := map[string]interface{}{
 		"kind":       res.Kind + "List",
@@ -508,8 +532,15 @@ func (s *APIServer) discovery(path string) Response {
 				continue
 			}
 			seen[r.Group] = true
-			gv := map[string]interface{}{"groupVersion": r.Group + "/" + r.Version, "version": r.Version}
-			groups = append(groups, map[string]interface{}{"name": r.Group, "versions": []interface{}{gv}, "preferredVersion": gv})
+			var versions []interface{}
+			seenV := map[string]bool{}
+			for _, q := range Palette {
+				if q.Group == r.Group && !seenV[q.Version] {
+					seenV[q.Version] = true
+					versions = append(versions, map[string]interface{}{"groupVersion": q.Group + "/" + q.Version, "version": q.Version})
+				}
+			}
+			groups = append(groups, map[string]interface{}{"name": r.Group, "versions": versions, "preferredVersion": versions[0]})
 		}
 		return jsonResp(200, map[string]interface{}{"kind": "APIGroupList", "apiVersion": "v1", "groups": groups})
 	}
